@@ -395,4 +395,24 @@ def iterate : Nat → Nat → IterKind → Val → IterSrc → List Val → Worl
     | none => some (iterDone kind acc w)
 end
 
+
+/-! ### a whole `eval` call with AST-supplied names -/
+
+/-- `scoped_names[n] = v`: bound in the top scope (the host's mapping), no copy -/
+def astBind (n : Name) (vmi : Nat) (v : Val) (w : World) : Except (Out × World) World :=
+  match w.vm? vmi with
+  | none => .error (.raise (.unmodelled "vm"), w)
+  | some vm => match writeTop w.heap vm.scopes n v with
+    | none => .error (.raise (.unmodelled "scope"), w)
+    | some h' => .ok { w with heap := h' }
+
+/-- the AST-supplied names (`ast_names`), one after the other, each bound in the top scope; then the program -/
+def evalAst (B : List Nat) (f : Nat) : List (Name × Op) → Op → Nat → World → Res
+  | [], main, vmi, w => evalOp B f main vmi w
+  | (n, op) :: rest, main, vmi, w =>
+    andThen (evalOp B f op vmi w) fun v w1 =>
+      match astBind n vmi v w1 with
+      | .error p => some p
+      | .ok w2 => evalAst B f rest main vmi w2
+
 end Sq.Den
